@@ -305,9 +305,18 @@ class DocBuilder:
             if k < 0.4 and recs and extend_records:
                 i = g.rng.randrange(len(recs))
                 h = w.rec_at(c, i)
-                attrs = self.other_attrs(c, n=1)
-                if attrs and w.add_attrs(h, attrs) is None:
-                    changed = True
+                how = g.rng.random()
+                if recs[i].get_type().localpart == "Activity" and how < 0.4:
+                    # ProvActivity.set_time writes the two time slots directly
+                    if w.set_time(h, self.time() if g.chance(0.8) else None, self.time() if g.chance(0.6) else None) is None:
+                        changed = True
+                elif how < 0.55:
+                    if w.add_type(h, g.value(None, ["qn", "str", "int"])) is None:
+                        changed = True
+                else:
+                    attrs = self.other_attrs(c, n=1)
+                    if attrs and w.add_attrs(h, attrs) is None:
+                        changed = True
             elif k < 0.8:
                 h, err = self.add_record(c)
                 changed = changed or h is not None
